@@ -3,6 +3,8 @@ import Sekai.Gen.Genesis
 import Sekai.Driver.GenesisCov
 import SekaiProofs.Props.C07
 import SekaiProofs.Lemmas.PermGenesis
+import Sekai.Gen.App
+import Sekai.Model.App
 /-! # C12 — Genesis export and re-import reproduce the chain state  (partial: byte-level stores)
 
 * `genesis_coverage_as_reviewed`: per module, the record kinds (store prefixes) the keeper can write and the keeper
@@ -176,5 +178,16 @@ example :
       (fun m => (roundTrip m [([1, 0, 0, 7], [42]), ([3, 0, 0, 7], [1])]).map (·.1)) = some [[1, 0, 0, 7]] := by
   decide +kernel
 end Presence
+
+/-! ### Application wiring (table `Gen.App`) -/
+
+/-- import order the round trip relies on: accounts and balances first, gov (identity registrar, permissions) before
+staking, staking before slashing, genutil and multistaking -/
+theorem init_order_as_modelled :
+    Sekai.App.inOrder Sekai.Gen.App.initOrder ["authtypes.ModuleName", "banktypes.ModuleName", "govtypes.ModuleName",
+      "stakingtypes.ModuleName", "slashingtypes.ModuleName"] = true ∧
+    Sekai.App.before Sekai.Gen.App.initOrder "stakingtypes.ModuleName" "genutiltypes.ModuleName" = true ∧
+    Sekai.App.before Sekai.Gen.App.initOrder "stakingtypes.ModuleName" "multistakingtypes.ModuleName" = true ∧
+    Sekai.App.before Sekai.Gen.App.initOrder "tokenstypes.ModuleName" "baskettypes.ModuleName" = true := by decide +kernel
 
 end Sekai.Props.C12
